@@ -95,7 +95,7 @@ theorem tolerates_failures (P : Params) (hP : P.Good) (qf : RepMap M → R × Bo
 theorem incomplete_accounting_verdict (P : Params) (hP : P.Good) (qf : RepMap M → R × Bool) (x : Nat)
     (pre : List (Arrival M E)) (errs : List (NodeId × E)) (k : Nat)
     (h : verdict P qf x pre = some (.incomplete errs k)) : errs.length + k = x := by
-  obtain ⟨hex, hpre⟩ := hP
+  obtain ⟨hex, hpre, _⟩ := hP
   unfold verdict at h
   simp only [hex, hpre] at h
   split at h
@@ -119,18 +119,73 @@ theorem incomplete_lists_failures (P : Params) (hP : P.Good) (qf : RepMap M → 
     (as : List (Arrival M E)) (errs : List (NodeId × E)) (k : Nat)
     (h : (run P qf x as).1 = .incomplete errs k) :
     ∃ pre, pre ∈ prefixes as ∧ errs = errsOf pre ∧ k = (replySet pre).length ∧ answered pre = x := by
+  obtain ⟨q, hq, hv⟩ := run_incomplete_verdict h
+  obtain ⟨h1, h2⟩ := (reported_errors P qf x q _ hv).1 errs k rfl
+  refine ⟨q, hq, h1, h2, ?_⟩
+  have hacc := incomplete_accounting_verdict P hP qf x q errs k hv
+  rw [h1, h2] at hacc
+  exact hacc
+
+/-- a context-error verdict is given exactly by a history that ends with the context's end -/
+theorem ctxErr_verdict (P : Params) (qf : RepMap M → R × Bool) (x : Nat) (p : List (Arrival M E))
+    (c : E) (errs : List (NodeId × E)) (k : Nat) (h : verdict P qf x p = some (.ctxErr c errs k)) :
+    ∃ pre, p = pre ++ [.ctxDone c] ∧ errs = errsOf pre ∧ k = (replySet pre).length := by
+  unfold verdict at h
+  split at h
+  · split at h <;> simp at h
+  · rename_i c' hl
+    simp only [Option.some.injEq, Outcome.ctxErr.injEq] at h
+    obtain ⟨rfl, rfl, rfl⟩ := h
+    obtain ⟨pre, rfl⟩ := List.getLast?_eq_some_iff.mp hl
+    exact ⟨pre, rfl, by simp [errsOf], by rw [replySet_append_ctxDone]⟩
+  · split at h <;> simp at h
+  · split at h
+    · simp at h
+    · split at h <;> simp at h
+
+/-- **the context's error lists the failures, too** (sibling of `incomplete_lists_failures` for the
+    other error outcome): a context-error outcome — whether the loop's `select` saw the context's end
+    or the exhaustion branch did (`incompleteCause`) — reports exactly the errors and the number of
+    replies of the history before the context's end -/
+theorem ctxErr_lists_failures (P : Params) (qf : RepMap M → R × Bool) (x : Nat)
+    (as : List (Arrival M E)) (c : E) (errs : List (NodeId × E)) (k : Nat)
+    (h : (run P qf x as).1 = .ctxErr c errs k) :
+    ∃ pre post, as = pre ++ .ctxDone c :: post ∧ errs = errsOf pre ∧ k = (replySet pre).length := by
   rw [run_eq_spec] at h
-  unfold spec at h
-  cases hf : (prefixes as).findSome? (verdict P qf x) with
-  | none => simp [hf] at h
-  | some o =>
-    simp [hf] at h
-    subst h
-    obtain ⟨q, hq, hv⟩ := List.exists_of_findSome?_eq_some hf
-    obtain ⟨h1, h2⟩ := (reported_errors P qf x q _ hv).1 errs k rfl
-    refine ⟨q, hq, h1, h2, ?_⟩
-    have hacc := incomplete_accounting_verdict P hP qf x q errs k hv
-    rw [h1, h2] at hacc
-    exact hacc
+  obtain ⟨p, hp, o', hv, ha⟩ := spec_verdict h (by simp)
+  obtain ⟨s, rfl⟩ := mem_prefixes.mp hp
+  rw [List.drop_left] at ha
+  cases o' with
+  | ok v => simp [adjust] at ha
+  | waiting => simp [adjust] at ha
+  | ctxErr c' errs' k' =>
+    simp only [adjust, Outcome.ctxErr.injEq] at ha
+    obtain ⟨rfl, rfl, rfl⟩ := ha
+    obtain ⟨pre, rfl, h1, h2⟩ := ctxErr_verdict P qf x p _ _ _ hv
+    exact ⟨pre, s, by simp, h1, h2⟩
+  | incomplete errs' k' =>
+    simp only [adjust] at ha
+    rcases exhaustedOutcome_cases (R := R) P errs' k' s with h' | ⟨c', post, rfl, _, h'⟩
+    · rw [h'] at ha; simp at ha
+    · rw [h'] at ha
+      simp only [Outcome.ctxErr.injEq] at ha
+      obtain ⟨rfl, rfl, rfl⟩ := ha
+      obtain ⟨h1, h2⟩ := (reported_errors P qf x p _ hv).1 _ _ rfl
+      exact ⟨p, post, rfl, h1, h2⟩
+
+/-- … and when it is the exhaustion branch that reports the context's error (the context's end was
+    not consumed by the loop: all `x` targeted nodes had answered), the accounting of
+    `incomplete_lists_failures` holds as well -/
+theorem exhaustion_ctxErr_lists_failures (P : Params) (hP : P.Good) (qf : RepMap M → R × Bool) (x : Nat)
+    (pre post : List (Arrival M E)) (c : E) (errs : List (NodeId × E)) (k : Nat)
+    (hpre : ∀ p ∈ prefixes pre, p ≠ pre → verdict P qf x p = none)
+    (hv : verdict P qf x pre = some (.incomplete errs k)) :
+    (run P qf x (pre ++ .ctxDone c :: post)).1 = .ctxErr c errs k ∧
+      errs = errsOf pre ∧ k = (replySet pre).length ∧ answered pre = x := by
+  obtain ⟨h1, h2⟩ := (reported_errors P qf x pre _ hv).1 errs k rfl
+  have hacc := incomplete_accounting_verdict P hP qf x pre errs k hv
+  refine ⟨exhaustion_outcome P hP qf x pre (.ctxDone c :: post) errs k hpre hv, h1, h2, ?_⟩
+  rw [h1, h2] at hacc
+  exact hacc
 
 end GorumsV.C07
